@@ -5,20 +5,37 @@ from vc.symex import LoopSpec, Ptr, BV
 
 I16 = z3.BitVecSort(16)
 P64 = z3.BitVecSort(64)
+_UF = {}
+
+
+def _uf(name, *sorts):
+    k = (name,) + tuple(str(x) for x in sorts)
+    if k not in _UF:
+        _UF[k] = z3.Function(name if sorts[0] == P64 else '%s_p%d' % (name, sorts[0].size()), *sorts)
+    return _UF[k]
+
 # order-embedding of NUL-terminated strings (by their first byte's address) into the integers:
 # ASSUMED semantics of strcmp / strcmp_P / strcmp_PP (external libc), strings not modified during a lookup
-KEY = z3.Function('strkey', P64, z3.IntSort())
+def KEY(p):
+    return _uf('strkey', p.sort(), z3.IntSort())(p)
+
 # definitional ghost views of a registry (functions of the registry pointer and the index)
-G = z3.Function('reg_namekey', P64, I16, z3.IntSort())      # G(reg,i)   := strkey(name pointer of entry i)
-IDG = z3.Function('reg_zoneid', P64, I16, z3.BitVecSort(32))  # IDG(reg,i) := zoneId field of entry i
-ZIG = z3.Function('reg_zoneinfo', P64, I16, P64)              # ZIG(reg,i) := registry[i]
+def G(reg, i):           # G(reg,i)   := strkey(name pointer of entry i)
+    return _uf('reg_namekey', reg.sort(), I16, z3.IntSort())(reg, i)
+
+def IDG(reg, i):         # IDG(reg,i) := zoneId field of entry i
+    return _uf('reg_zoneid', reg.sort(), I16, z3.BitVecSort(32))(reg, i)
+
+def ZIG(reg, i):         # ZIG(reg,i) := registry[i]
+    return _uf('reg_zoneinfo', reg.sort(), I16, reg.sort())(reg, i)
+
 
 INVALID = z3.BitVecVal(0xffff, 16)
 
 
 def _strcmp_model(ex, st, c):
     a, b = ex.ptr_to_bv(c.args[0]), ex.ptr_to_bv(c.args[1])
-    r = ex.fresh('strcmp', 32)
+    r = ex.fresh('strcmp', 16 if ex.pbits == 16 else 32)      # the width of int on the target
     st.pc.append(z3.And((r == 0) == (KEY(a) == KEY(b)), (r < 0) == (KEY(a) < KEY(b)), r >= -255, r <= 255,
                         # 7-bit ASCII zone names: the difference of the first differing bytes fits int8_t
                         r >= -127, r <= 127))
@@ -67,18 +84,18 @@ def _make(ns, ZR):
         reg = c.old.field(c.this, ZRB, 'mZoneRegistry')
         i = c.args[1]
         r = c.ex.ptr_to_bv(c.result)
-        real = c.old.load(Ptr(None, reg + 8 * zx(i, 64)), 8)
+        real = c.old.load(Ptr(None, reg + (reg.size() // 8) * zx(i, reg.size())), reg.size() // 8)
         return [('real-read', r == real)]
 
     def _zoneinfo_defs(c, ZI=ZI, ZRB=ZRB):
         reg = c.old.field(c.this, ZRB, 'mZoneRegistry')
         i = c.args[1]
-        r = c.old.load(Ptr(None, reg + 8 * zx(i, 64)), 8)
+        r = c.old.load(Ptr(None, reg + (reg.size() // 8) * zx(i, reg.size())), reg.size() // 8)
         name_off, _ = c.mod.field(ZI, 'name')
         id_off, _ = c.mod.field(ZI, 'zoneId')
         # instances of the DEFINITIONS of the ghost registry views at the index touched
         return [('def-ZIG', r == ZIG(reg, i)),
-                ('def-G', KEY(c.old.load(Ptr(None, r + name_off), 8)) == G(reg, i)),
+                ('def-G', KEY(c.old.load(Ptr(None, r + name_off), reg.size() // 8)) == G(reg, i)),
                 ('def-IDG', c.old.load(Ptr(None, r + id_off), 4) == IDG(reg, i))]
 
     # touching entry i is allowed only for i < registry size (ghost): "touches only registry entries"
